@@ -314,10 +314,21 @@ def execute(sc):
             for t in sc.get('gc_at', []):
                 sched.append((t, collect, ()))
             rt.call_in_order(loop, t0, sched)
+            if ls.get('pause'):
+                # the thread leaves its loop for a while (run_until_complete returns, everything stays pending) ...
+                await asyncio.sleep(ls['pause'][0])
+                return
             await asyncio.sleep(ls.get('end', sc.get('end', 60.0)))
             ctl.log('Quiescent', loop=name)
 
         loop.run_until_complete(main())
+        if ls.get('pause'):
+            ctl.sleep(ls['pause'][1] - ls['pause'][0])
+
+            async def rest():        # ... and comes back to it later
+                await asyncio.sleep(max(0.0, t0 + ls.get('end', sc.get('end', 60.0)) - loop.time()))
+                ctl.log('Quiescent', loop=name)
+            loop.run_until_complete(rest())
         rt.shutdown_loop(loop)
 
     for ls in loops:
